@@ -119,6 +119,26 @@ fn asn_num(atom: &str) -> u32 {
     atom_value(atom).1[2..].parse().unwrap()
 }
 
+/// "AS65001" or 65001 as JSON -> number
+fn asn_of_json(v: &Value) -> u32 {
+    match v {
+        Value::Number(n) => n.as_u64().unwrap_or(u64::MAX) as u32,
+        Value::String(s) => s.trim_start_matches("AS").parse()
+            .unwrap_or(u32::MAX),
+        _ => u32::MAX,
+    }
+}
+
+/// A provider authorisation in the vocabulary of Krill.tla.
+fn aspa_tuple(customer: u32, mut providers: Vec<u32>) -> Vec<String> {
+    providers.sort();
+    vec![
+        asn_atom(customer),
+        format!("prov:{}", providers.iter().map(|p| asn_atom(*p))
+            .collect::<Vec<_>>().join("+")),
+    ]
+}
+
 fn asn_atom(num: u32) -> String {
     for (n, k, v) in ATOMS {
         if *k == "asn" && v[2..].parse::<u32>().ok() == Some(num) {
@@ -1009,6 +1029,18 @@ impl World {
                             ).parse().unwrap_or(u32::MAX)),
                         ]
                     }).collect();
+                let mut rs = rs;
+                // provider authorisations in the same shape:
+                // [customer AS atom, "prov:<provider atoms>"]
+                for def in live.aspas_definitions_show().as_slice().iter() {
+                    let v = serde_json::to_value(def).unwrap_or_default();
+                    rs.insert(aspa_tuple(
+                        asn_of_json(&v["customer"]),
+                        v["providers"].as_array().cloned()
+                            .unwrap_or_default().iter().map(asn_of_json)
+                            .collect()
+                    ));
+                }
                 routes.insert(name.clone(), json!(rs));
             }
             // the children this CA knows
@@ -1228,6 +1260,16 @@ impl World {
             }
             vrps.insert(vec![prefix_atom(&v.0), asn_atom(v.2), ca]);
         }
+        for a in &res.aspas {
+            let (ca, role) = self.key_roles.get(&a.2).cloned()
+                .unwrap_or(("?".into(), "?".into()));
+            if role != "cur" && role != "old" {
+                odd.push(format!("aspa under key {ca}:{role}"));
+            }
+            let mut t = aspa_tuple(a.0, a.1.clone());
+            t.push(ca);
+            vrps.insert(t);
+        }
         json!({
             "vrps": vrps, "problems": res.problems, "odd": odd,
             "orphans": res.orphans,
@@ -1402,7 +1444,46 @@ impl World {
                         Err(e) => stray.push(format!("bad cer {fname}: {e}")),
                     }
                 }
-                else if !fname.ends_with(".asa") {
+                else if fname.ends_with(".asa") {
+                    match rpki::repository::aspa::Aspa::decode(data, true) {
+                        Ok(aspa) => {
+                            let aki = aspa.cert().authority_key_identifier()
+                                .map(|k| k.to_string()).unwrap_or_default();
+                            let role = role_of(self, &aki);
+                            {
+                                let kname = self.key_name(&aki);
+                                let serial = aspa.cert().serial_number();
+                                let id = self.obj_id(
+                                    &kname, &serial.to_string(), Some(serial)
+                                );
+                                let facts
+                                    = keyfacts.entry(kname).or_default();
+                                // (renewed together with route origins)
+                                facts.roas.insert(id.clone());
+                                facts.objs.insert(id);
+                                facts.files.insert(fname.clone());
+                            }
+                            let tuple = aspa_tuple(
+                                aspa.content().customer_as().into_u32(),
+                                aspa.content().provider_as_set().iter()
+                                    .map(|p| p.into_u32()).collect()
+                            );
+                            if role == "cur" {
+                                vrps.insert(tuple);
+                            }
+                            else if role == "old" {
+                                ovrps.insert(tuple);
+                            }
+                            else {
+                                stray.push(format!(
+                                    "aspa {fname} under key {role}"
+                                ));
+                            }
+                        }
+                        Err(e) => stray.push(format!("bad aspa {fname}: {e}")),
+                    }
+                }
+                else {
                     stray.push(format!("unknown file {fname}"));
                 }
             }
